@@ -142,9 +142,17 @@ pub fn profile(name: &str) -> Option<Profile> {
             rebuild_checks: true,
             ..base
         },
-        "net" | "netfaults" | "netpart" => Profile {
+        // "netreplay" additionally delivers copies of requests that were
+        // answered long ago, behind later requests of the same sender. The
+        // transport (one HTTPS request per exchange, no re-sending of the
+        // same bytes by Krill's client) does not do that and none of the
+        // listed properties promises protection against replayed messages
+        // (Krill has none for RFC 6492 / RFC 8181 messages), so that
+        // profile is exploratory and not part of any registered check.
+        "net" | "netfaults" | "netpart" | "netreplay" => Profile {
             name: match name {
-                "net" => "net", "netfaults" => "netfaults", _ => "netpart"
+                "net" => "net", "netfaults" => "netfaults",
+                "netpart" => "netpart", _ => "netreplay"
             },
             oracles: Oracles { c01: true, c02: true, c03: true, ..Default::default() },
             gen_cfg: GenCfg {
@@ -166,7 +174,7 @@ pub fn profile(name: &str) -> Option<Profile> {
                     drop_request_permille: 60,
                     drop_response_permille: 60,
                     duplicate_permille: 80,
-                    late_copy_permille: 60,
+                    late_copy_permille: if name == "netreplay" { 60 } else { 0 },
                 }
             }),
             ..base
